@@ -23,6 +23,7 @@ import (
 	"github.com/consensys/gnark/constraint"
 	"github.com/consensys/gnark/frontend"
 	"github.com/consensys/gnark/std/algebra"
+	"github.com/consensys/gnark/std/algebra/algopts"
 	"github.com/consensys/gnark/std/algebra/emulated/sw_bls12381"
 	"github.com/consensys/gnark/std/algebra/emulated/sw_bn254"
 	"github.com/consensys/gnark/std/algebra/emulated/sw_bw6761"
@@ -674,10 +675,17 @@ func (v *Verifier[FR, G1El, G2El, GtEl]) AssertProof(vk VerifyingKey[G1El, G2El,
 	if err != nil {
 		return fmt.Errorf("multi scalar mul: %w", err)
 	}
-	kSum = v.curve.Add(kSum, &vk.G1.K[0])
+	// the multi scalar multiplication returns the point at infinity when all the
+	// public inputs are zero: with complete arithmetic the additions below
+	// have to handle it as well.
+	add := v.curve.Add
+	if algCfg, err := algopts.NewConfig(opt.algopt...); err == nil && algCfg.CompleteArithmetic {
+		add = v.curve.AddUnified
+	}
+	kSum = add(kSum, &vk.G1.K[0])
 
 	for i := range proof.Commitments {
-		kSum = v.curve.Add(kSum, &proof.Commitments[i].G1El)
+		kSum = add(kSum, &proof.Commitments[i].G1El)
 	}
 
 	if opt.forceSubgroupCheck {
